@@ -14,8 +14,11 @@ def registry():
     import props_store
     import props_enc
     import props_fault
+    import props_meta
+    import props_io
+    import props_equiv
     props = {}
-    for mod in (props_solve, props_store, props_enc, props_fault):
+    for mod in (props_solve, props_store, props_enc, props_fault, props_meta, props_io, props_equiv):
         for name in dir(mod):
             c = getattr(mod, name)
             if isinstance(c, type) and issubclass(c, engine.Property) and getattr(c, "id", None):
